@@ -430,7 +430,9 @@ func (x *Exec) static(st *State, fn *ssa.Function, c *ssa.CallCommon, args []SVa
 		ret(SVal{K: KStruct, Elems: elems, GoT: rt})
 		return
 	case pkg == "context" && (name == "Background" || name == "TODO"):
-		ret(SVal{K: KU, T: q(x.D.constOf("ctx!"+name, "U")), GoT: fn.Signature.Results().At(0).Type(), Src: "context." + name})
+		bg := q(x.D.constOf("ctx!"+name, "U"))
+		st.assume(not(eq(bg, "nil"))) // assumed contract of package context: Background and TODO are never nil
+		ret(SVal{K: KU, T: bg, GoT: fn.Signature.Results().At(0).Type(), Src: "context." + name})
 		return
 	case pkg == "context" && name == "WithValue":
 		t := x.D.app("ctx_WithValue", []string{x.termOf(st, args[0]), x.termOf(st, args[1]), x.termOf(st, args[2])}, []string{"U", "U", "U"}, "U")
